@@ -23,13 +23,23 @@ TRUSTED = ["Coq 8.16.1 kernel, vm_compute for the correspondence evaluation",
            "whose winning segment cannot be changed by rounding (K_C07.decided_query)",
            "NumPy, vg"]
 CASE_IMPORTS = [("PW.model", "M_polyline_base"), ("PW.model", "M_segment"), ("PW.model", "M_polyline_nearest")]
-DEFINITIONAL = ["C07_pairwise_is_rowwise"]
+# case analyses / unfoldings of the model's own definitions (nearest_ret, aligned_flip): shape of the model only
+DEFINITIONAL = ["C07_pairwise_is_rowwise", "C07_nearest_returns_requested_partial", "C07_aligned_along_subsegment_decision"]
 ASSUMPTIONS = ["theorems are about exact real arithmetic; binary64 rounding is covered only by the tolerance of the "
                "correspondence check on sampled inputs",
-               "sub-path clauses: sliced_at_points is proved about the ORIGINAL polyline (unique nearest point of b, nearest points "
-               "not within the code's vertex tolerance) for open polylines in full and for closed polylines when nearest(a) "
-               "is not on the closing edge (_partial); for aligned_along_subsegment only the flip decision is proved, that "
-               "the flipped polyline then yields the forward / shorter sub-path is checked by the oracle only",
+               "sub-path clauses are proved about the ORIGINAL polyline under hypotheses that formalise the property's domain "
+               "(b's, for alignment also p1's, nearest point is the unique minimiser = the polyline does not touch itself there; "
+               "nearest points not within the code's 1e-8 vertex tolerance of a vertex or of each other): sliced_at_points for open "
+               "polylines (C07_sliced_at_points_open_spec) and for closed polylines incl. the closing edge and wrap-around "
+               "(C07_sliced_at_points_closed_spec / _explicit); aligned_along_subsegment with its post-condition, open (sub-path "
+               "runs forward, no refusal) and closed (shorter way round) (C07_aligned_along_subsegment_open_spec / _closed_spec)",
+               "two query points whose nearest points are within 1e-8 of each other: the code returns the single vertex "
+               "[nearest(a)] (no refusal, also on an open polyline); accepted as the degenerate sub-path (stream sliced_*_near_pair, "
+               "generated at coordinate magnitudes <= 64 only: the tolerance is absolute, at ~1e9 rounding alone exceeds it and the "
+               "outcome for coincident nearest points is ill-conditioned, e.g. the whole loop on a closed polyline)",
+               "magnitudes: the theorems are about exact reals; in binary64 the squared segment lengths must neither overflow nor "
+               "underflow (coordinates roughly within 1e-150 .. 1e150). Outside that range nearest returns t = 0 with distance inf, "
+               "or distance 0 for every query; the stream nearest_extreme_magnitude records this behaviour and is NOT judged",
                "nearest: values of a stacked case are compared per query; queries whose winning segment rounding could "
                "change are skipped individually (K_C07.decided_query)"]
 
@@ -97,8 +107,11 @@ Proof. intros {vars} s Hd Hpath Hs. rewrite (proj1 ({T}_ok {vars} Hd Hpath)). cb
             lem, st = lemma, {"tuple": [{"shape": [1, 3], "data": ["e", "e", "e"]}, {"shape": [1], "data": ["e"]}]}
         else:
             lem = lemma_clamped.replace("TVAL", str(tval))
-            st = {"tuple": [{"shape": [1, 3], "data": ["e", "e", "e"]}, {"shape": [1], "data": [tval]}]}
-        ks.append(Kernel(name, {"p": pval, "a": [0.5, 0.25, 0.0], "v": [2.0, 1.0, 0.5]}, cp, pre + lem, imports=_IMPORTS,
+            # clamped: the t value is the literal 0 / 1 in the traced run and the float 0.0 / 1.0 in the validation run, so
+            # only the point is taken as output; that t is 0 / 1 is the second conjunct of the lemma (from the path)
+            st = {"shape": [1, 3], "data": ["e", "e", "e"]}
+        ks.append(Kernel(name, {"p": pval, "a": [0.5, 0.25, 0.0], "v": [2.0, 1.0, 0.5]},
+                         cp if tval is None else (lambda p, a, v: cp(p, a, v)[0]), pre + lem, imports=_IMPORTS,
                          expect_structure=st))
 
     # is_point_on_line_segment: concrete boolean; the decided comparison is the model's
@@ -146,7 +159,9 @@ def _near_kernel(name, verts, queries, idx, t_concrete=None):
             reps.append("progress (replace (n / d) with tm%d_%d in * by (unfold tm%d_%d; field; first [assumption | intro; lra]))" % (q, k, q, k))
     first = "first [%s]" % "\n      | ".join(reps)
     single = nq == 1
-    call = (lambda v, p: Polyline(v).nearest(p if not single else p[0], ret_segment_indices=True, ret_distances=True, ret_t_values=True))
+    call0 = (lambda v, p: Polyline(v).nearest(p if not single else p[0], ret_segment_indices=True, ret_distances=True, ret_t_values=True))
+    # clamped winner: t is the literal 0 in the traced run (float 0.0 in the validation run): keep point, index, distance
+    call = call0 if t_concrete is None else (lambda v, p: call0(v, p)[:3])
     # flattened result: points, (indices concrete), distances, t values
     model = ("rmap (fun rs => flat_map (fun r => vlist (n_pt r)) rs ++ map n_d rs ++ map n_t rs) (nearest_many ROps %s [%s])"
              % (PL, "; ".join(P(q) for q in range(nq))))
@@ -183,7 +198,7 @@ Proof. intros {vars} %s Hpath. unfold {T}_path in Hpath; rops. path_facts Hpath.
         " ".join("Hd%d" % k for k in range(nseg)), "\n  ".join(sets), first, first,
         " ".join("tm%d_%d" % (q, k) for q in range(nq) for k in range(nseg)))
     if single:
-        st = {"tuple": [{"shape": [3], "data": ["e"] * 3}, idx[0], "e", "e" if t_concrete is None else t_concrete]}
+        st = {"tuple": [{"shape": [3], "data": ["e"] * 3}, idx[0], "e"] + (["e"] if t_concrete is None else [])}
     else:
         st = {"tuple": [{"shape": [nq, 3], "data": ["e"] * (3 * nq)}, {"shape": [nq], "dtype": "int64", "data": idx},
                         {"shape": [nq], "data": ["e"] * nq}, {"shape": [nq], "data": ["e"] * nq}]}
@@ -352,6 +367,11 @@ def gen_cases(rng, n, tier):
             qs = [grid_vec(rng, -5, 5, 4) for _ in range(1 if single else rng.randint(1, 4))]
             cases.append({"kind": "nearest_generic", "v": [[x * sc for x in p] for p in pts], "closed": closed,
                           "points": [[x * sc for x in p] for p in qs], "single": single, "flags": _flags(rng)})
+        elif u < 0.535:
+            # far outside the binary64 range in which squared lengths are representable: recorded, not judged
+            s_ = 2.0 ** rng.choice([600, 700, 900, -560, -600, -900])
+            cases.append({"kind": "nearest_extreme_magnitude", "v": [[0.0, 0.0, 0.0], [s_, 0.0, 0.0]], "closed": False,
+                          "points": [[s_ / 2, s_ / 4, 0.0]], "single": False, "flags": [True, True, True]})
         elif u < 0.55:
             # no segment at all (outside the property's domain; model and code must agree on the refusal)
             pts = [grid_vec(rng)] if rng.random() < 0.6 else []
@@ -384,7 +404,13 @@ def gen_cases(rng, n, tier):
             # index_of_vertex uses an ABSOLUTE tolerance of 1e-8: keep the geometry well above it
             # (the property speaks about queries not within 1e-3 of a vertex)
             sc = max(sc, 2.0 ** -10)
-            pts, ax = _perm(rng, _simple_closed(rng) if closed else _simple_open(rng))
+            raw = _simple_closed(rng) if closed else _simple_open(rng)
+            if rng.random() < 0.35:
+                # non-planar: any heights keep an x-monotone chain / a star-shaped polygon simple in 3-D
+                raw = [[p[0], p[1], float(rng.randint(-2, 2))] for p in raw]
+            pts, ax = _perm(rng, raw)
+            # integer vertex array (Polyline stores float64 since fix 9b9f8e2: the inserted points must not be truncated)
+            as_int = sc == 1.0 and rng.random() < 0.4
             pts = [[x * sc for x in p] for p in pts]
             a = _query_near(rng, pts, closed, ax, sc)
             b = _query_near(rng, pts, closed, ax, sc)
@@ -392,10 +418,17 @@ def gen_cases(rng, n, tier):
                 a = list(rng.choice(pts))                       # exactly a vertex
             if rng.random() < 0.12:
                 b = list(rng.choice(pts))                       # exactly a vertex: no insertion for the end point
+            # only at moderate scales: the code's vertex tolerance is absolute (1e-8), so at coordinates ~1e9 the rounding of
+            # the inserted point alone exceeds it and the outcome for coincident nearest points is ill-conditioned
+            near_pair = u < 0.87 and sc <= 16.0 and rng.random() < 0.1
+            if near_pair:
+                b = [a[0] + 2.0 ** -31, a[1], a[2] - 2.0 ** -32]  # nearest points closer than the 1e-8 vertex tolerance
             fv = [_F3(p) for p in pts]
             wa, ia, ta, ca, _ = _exact_nearest(fv, closed, _F3(a))
             wb, ib, tb, cb, _ = _exact_nearest(fv, closed, _F3(b))
-            if not (wa and wb) or ca == cb:
+            if not (wa and wb) or (ca == cb and not near_pair):
+                continue
+            if near_pair and max(abs(x - y) for x, y in zip(ca, cb)) > Fr(1, 10 ** 9):
                 continue
             kind = "sliced" if u < 0.87 else "aligned"
             if kind == "aligned" and closed:
@@ -405,7 +438,8 @@ def gen_cases(rng, n, tier):
                 fwd = (lb - la) % tot
                 if abs(fwd - (tot - fwd)) < 1e-6 * tot:
                     continue
-            cases.append({"kind": kind + ("_closed" if closed else "_open"), "v": pts, "closed": closed, "a": a, "b": b})
+            cases.append({"kind": kind + ("_closed" if closed else "_open") + ("_near_pair" if near_pair else ""), "v": pts,
+                          "closed": closed, "a": a, "b": b, "int": as_int, "near_pair": near_pair})
     return cases
 
 
@@ -460,7 +494,7 @@ def run_impl(c):
                 on = is_point_on_line_segment(ps, sa, sv, float(c["eps"]))
                 return {"pts": pts.tolist(), "ts": ts.tolist(), "on": [bool(x) for x in on],
                         "same_without_t": bool(np.array_equal(pts, pts2))}
-            v = np.array(c["v"], dtype=np.float64).reshape(-1, 3)
+            v = np.array(c["v"], dtype=np.int64 if c.get("int") else np.float64).reshape(-1, 3)
             pl = Polyline(v, is_closed=c["closed"])
             a, b = np.array(c["a"]), np.array(c["b"])
             if c["kind"].startswith("sliced"):
@@ -501,6 +535,8 @@ def _onear(o):
 
 
 def coq_case(c, o):
+    if c["kind"] == "nearest_extreme_magnitude":
+        return "CClosest true [] [] [] 0 [] [] []"      # recorded only (see ASSUMPTIONS): nothing to compare
     if c["kind"].startswith("nearest"):
         if "raise" in o:
             o = {"obs": o, "full": o}
@@ -614,6 +650,19 @@ def _expected_subpath(c):
 
 
 def _oracle_sliced(c, o):
+    if c.get("near_pair"):
+        # nearest(a) and nearest(b) coincide within the code's vertex tolerance: the degenerate sub-path [nearest(a)]
+        if "raise" in o:
+            return "sliced_at_points raised %s on two points with (almost) the same nearest point" % o["raise"]
+        vs = [_F3(p) for p in c["v"]]
+        ca = _exact_nearest(vs, c["closed"], _F3(c["a"]))[3]
+        mag = max([Fr(0)] + [abs(x) for p in vs for x in p])
+        if o["closed"] or len(o["v"]) not in (1, 2):
+            return "near pair: expected the single vertex nearest(a) (or the two points), got %d vertices" % len(o["v"])
+        for got in o["v"]:
+            if not all(abs(Fr(float(got[j])) - ca[j]) <= Fr(2, 10 ** 8) + Fr(1, 10 ** 8) * mag for j in range(3)):
+                return "near pair: vertex %r is not nearest(a)" % (got,)
+        return None
     exp = _expected_subpath(c)
     if "raise" in o:
         if exp is None and o["raise"] == "ValueError":
@@ -658,6 +707,8 @@ def _oracle_aligned(c, o):
 
 
 def oracle(c, o):
+    if c["kind"] == "nearest_extreme_magnitude":
+        return None                                       # documented float range, not judged
     if c["kind"].startswith("nearest"):
         return _oracle_nearest(c, o)
     if isinstance(o, dict) and "raise" in o and c["kind"] == "closest_pairs":
